@@ -193,5 +193,79 @@ pub fn handle_sscan(storage: &mut EngineModel, db: usize, parts: &[RespFrame]) -
 //@@ body
 //@@ end
 
+// ======================= ZSCAN key cursor [MATCH pattern] [COUNT count] =========================
+pub uninterp spec fn spec_zscan_step(ds: DS, db: int, key: Seq<u8>, cursor: u64, pattern: Option<Seq<u8>>, count: usize) -> Option<(u64, Seq<(Seq<u8>, f64)>)>;
+/// the text frame of a score in the reply (`RespFrame::from_string(score.to_string())`, RT site; uninterpreted)
+pub uninterp spec fn zscan_score_frame(x: f64) -> RespFrame;
+#[verifier::external_body]
+pub fn verif_zscan_score_frame(x: f64) -> (r: RespFrame) ensures r == zscan_score_frame(x), { unimplemented!() }
+impl EngineModel {
+    /// one ZSCAN step (the window computation is unit zscan_window in c19_scan); None = refused (wrong type)
+    #[verifier::external_body]
+    pub fn zscan(&mut self, db: usize, key: &[u8], cursor: u64, pattern: Option<&[u8]>, count: usize) -> (r: Result<(u64, Vec<(Vec<u8>, f64)>)>)
+        ensures final(self).ds@ == old(self).ds@, final(self).ttl@ == old(self).ttl@,
+            match spec_zscan_step(old(self).ds@, db as int, key@, cursor, (match pattern { Some(p) => Some(p@), None => None }), count) {
+                Some(s) => r matches Ok(t) && t.0 == s.0 && t.1@.len() == s.1.len() && (forall|j: int| 0 <= j < s.1.len() ==> (#[trigger] t.1@[j]).0@ == s.1[j].0 && t.1@[j].1 == s.1[j].1),
+                None => r is Err },
+    { unimplemented!() }
+}
+/// [next cursor, [member1, score1, member2, score2, ...]] — every pair of the step, in order, each member followed by ITS score
+pub open spec fn zscan_reply(r: Result<RespFrame>, step: Option<(u64, Seq<(Seq<u8>, f64)>)>) -> bool {
+    match step {
+        None => !(r matches Ok(f) && !(f is Error)),
+        Some(s) => r matches Ok(RespFrame::Array(Some(v))) && v@.len() == 2 && v@[0] == cursor_frame(s.0)
+            && (v@[1] matches RespFrame::Array(Some(ks)) && ks@.len() == 2 * s.1.len()
+                && forall|j: int| 0 <= j < s.1.len() ==> bulk_reply(#[trigger] ks@[2 * j]) == Some(Some(s.1[j].0)) && ks@[2 * j + 1] == zscan_score_frame(s.1[j].1)),
+    }
+}
+//@@ unit handle_zscan fn src/storage/commands/scan.rs handle_zscan
+//@@   params drop "storage: &Arc<StorageEngine>" add "storage: &mut EngineModel"
+//@@   rewrite R3
+//@@   rewrite RT "let mut pattern = None;" "let mut pattern: Option<&Vec<u8>> = None;"
+//@@   rewrite RCALL parse "String::from_utf8_lossy(bytes)" verif_cow_parse
+//@@   rewrite RCALL parse "String::from_utf8_lossy(c)" verif_cow_parse
+//@@   rewrite RXPR "String::from_utf8_lossy(option).to_uppercase()" "verif_upper(option)"
+//@@   rewrite RXPR "pattern.map(|p| &**p)" "verif_opt_bytes(pattern)"
+//@@   rewrite RXPR "next_cursor.to_string()" "next_cursor"
+//@@   rewrite RT "RespFrame::from_string(cursor_str)" "verif_cursor_frame(cursor_str)"
+//@@   rewrite RT "RespFrame::from_string(score.to_string())" "verif_zscan_score_frame(score)"
+//@@   rewrite RT "let mut elements_frames = Vec::with_capacity(items.len() * 2);" "let mut elements_frames: Vec<RespFrame> = Vec::with_capacity(items.len() * 2);"
+//@@   rewrite RFOR 1 it
+//@@   loop 0
+//@@|     invariant
+//@@|         3 <= i <= parts@.len() + 1, parts@.len() >= 3,
+//@@|         *storage == *old(storage),
+//@@|         kscan_opts(parts@, 3, KScanOpts { pattern: None, count: 10, novalues: false }, false) == kscan_opts(parts@, i as int, KScanOpts {
+//@@|             pattern: (match pattern { Some(p) => Some(p@), None => None }), count: count, novalues: false }, false),
+//@@|     decreases parts@.len() + 1 - i,
+//@@   loopstart 0
+//@@|     proof { broadcast use group_str_eq; reveal_with_fuel(kscan_opts, 2); }
+//@@   at "for (member, score) in items"
+//@@|     let ghost its = items@;
+//@@   loop 1
+//@@|     invariant
+//@@|         it.seq() == its, it.history@ =~= it.seq().take(it.index@), elements_frames@.len() == 2 * it.index@,
+//@@|         forall|j: int| 0 <= j < it.index@ ==> bulk_reply(#[trigger] elements_frames@[2 * j]) == Some(Some(its[j].0@)) && elements_frames@[2 * j + 1] == zscan_score_frame(its[j].1),
+//@@|     ensures it.index@ == its.len(),
+//@@   loopstart 1
+//@@|     let ghost n0 = it.index@ as int; let ghost fr0 = elements_frames@;
+//@@   after "elements_frames.push(RespFrame::from_string(score.to_string()));"
+//@@|     proof {
+//@@|         assert(its[n0] == (member, score));
+//@@|         assert forall|j: int| 0 <= j < n0 + 1 implies bulk_reply(#[trigger] elements_frames@[2 * j]) == Some(Some(its[j].0@)) && elements_frames@[2 * j + 1] == zscan_score_frame(its[j].1) by {
+//@@|             if j < n0 { assert(elements_frames@[2 * j] == fr0[2 * j]); assert(elements_frames@[2 * j + 1] == fr0[2 * j + 1]); }
+//@@|         }
+//@@|     }
+pub fn handle_zscan(storage: &mut EngineModel, db: usize, parts: &[RespFrame]) -> (r: Result<RespFrame>)
+    ensures
+        final(storage).ds@ == old(storage).ds@, final(storage).ttl@ == old(storage).ttl@,
+        (parts@.len() < 3 || arg(parts@, 1) is None || num_arg::<u64>(parts@, 2) is None) ==> (r matches Ok(f) && f is Error),
+        parts@.len() >= 3 && arg(parts@, 1) is Some && num_arg::<u64>(parts@, 2) is Some ==> (match kscan_opts(parts@, 3, KScanOpts { pattern: None, count: 10, novalues: false }, false) {
+            None => r matches Ok(f) && f is Error,
+            Some(o) => zscan_reply(r, spec_zscan_step(old(storage).ds@, db as int, arg(parts@, 1)->Some_0, num_arg::<u64>(parts@, 2)->Some_0, o.pattern, o.count)),
+        }),
+//@@ body
+//@@ end
+
 } // verus!
 fn main() {}
